@@ -121,6 +121,67 @@ def _work(args):
     return out
 
 
+def _child(conn, task):
+    try:
+        conn.send(_work(task))
+    except BaseException as exc:  # noqa: BLE001
+        try:
+            conn.send({"__died__": "%s: %s" % (type(exc).__name__, exc)})
+        except Exception:  # noqa: BLE001
+            pass
+    finally:
+        conn.close()
+
+
+def _lost(task, why):
+    """A case whose worker process died or ran out of time: undecided, never a verdict about the code."""
+    return {"scenario": task[2], "case_id": task[3], "results": [], "functions": {}, "assumed": {}, "undecided": [(task[3], why)], "paths": 0,
+            "vacuous": 0, "samples": [], "concrete_runs": 0, "concrete_distinct": 0, "concrete_counts": {}, "concrete_failures": [],
+            "replays": [], "error": None, "oplog": [], "concrete_sample": None, "wall": 0.0}
+
+
+def run_tasks(tasks, jobs, case_timeout):
+    """One forked process per case (a solver crash or hang loses that case only)."""
+    if jobs <= 1 and os.environ.get("ROPTVC_INPROCESS"):
+        return [_work(t) for t in tasks]
+    ctxm = mp.get_context("fork")
+    pending = list(enumerate(tasks))[::-1]
+    running, results = {}, [None] * len(tasks)
+    while pending or running:
+        while pending and len(running) < jobs:
+            idx, task = pending.pop()
+            parent, child = ctxm.Pipe(duplex=False)
+            proc = ctxm.Process(target=_child, args=(child, task), daemon=True)
+            proc.start()
+            child.close()
+            running[idx] = (proc, parent, time.time(), task)
+        progressed = False
+        for idx in list(running):
+            proc, conn, t_start, task = running[idx]
+            if conn.poll():
+                try:
+                    res = conn.recv()
+                except EOFError:
+                    res = {"__died__": "worker closed the pipe"}
+                proc.join(5)
+                results[idx] = _lost(task, "worker failed: " + res["__died__"]) if "__died__" in res else res
+                del running[idx]
+                progressed = True
+            elif not proc.is_alive():
+                results[idx] = _lost(task, "worker process died (exit code %s): solver crash?" % proc.exitcode)
+                del running[idx]
+                progressed = True
+            elif time.time() - t_start > case_timeout:
+                proc.terminate()
+                proc.join(5)
+                results[idx] = _lost(task, "case exceeded %d s" % case_timeout)
+                del running[idx]
+                progressed = True
+        if not progressed:
+            time.sleep(0.01)
+    return results
+
+
 def safe_name(s):
     return re.sub(r"[^A-Za-z0-9_.\-\[\]=,]+", "_", s)[:150]
 
@@ -156,12 +217,7 @@ def main(argv=None):
         print("CHECKER-ERROR property=%s no cases generated" % prop)
         return 3
     jobs = max(1, min(a.jobs, len(tasks)))
-    if jobs > 1:
-        ctxm = mp.get_context("fork")
-        with ctxm.Pool(jobs, maxtasksperchild=20) as pool:
-            outs = pool.map(_work, tasks, chunksize=1)
-    else:
-        outs = [_work(t) for t in tasks]
+    outs = run_tasks(tasks, jobs, int(os.environ.get("ROPTVC_CASE_TIMEOUT_S", "600" if tier == "quick" else "1800")))
 
     # ---- aggregate
     errors = [o for o in outs if o["error"]]
